@@ -167,7 +167,31 @@ def gen_consts(repo):
     if not defuse:
         die("no drop-guard defusing found in TempFile::rename")
     disarm_before = min(defuse) < i_ren
+    # ---- object store shape (C18)
+    obj = read(repo, "src/ffi/object.rs")
+    mac = read(repo, "src/utils/macros.rs")
+    fns = {}
+    for fname, fbody in rust_functions(obj):
+        fns.setdefault(fname, fbody)      # the first definition: impl ObjectHandle
+    for need in ("create", "load", "remove"):
+        if need not in fns:
+            die(f"ObjectHandle::{need} not found in ffi/object.rs")
+    counter_ok = re.search(r"\$counter\.fetch_add\(\s*1\s*,\s*std::sync::atomic::Ordering::SeqCst\s*\)\s*\+\s*1", mac) is not None
+    cr = fns["create"]
+    i_next, i_lock, i_ins = cr.find("Self::next()"), cr.find(".lock()"), cr.find(".insert(handle")
+    create_ok = 0 <= i_next < i_lock < i_ins
+    ld = fns["load"]
+    load_ok = 0 <= ld.find(".lock()") < ld.find(".get(&self)") < ld.find(".cloned()")
+    rm = fns["remove"]
+    remove_ok = 0 <= rm.find(".lock()") < rm.find(".remove(&self)")
+    single_lock = len(re.findall(r"pub static FFI_OBJECTS\s*:\s*Lazy<Mutex<BTreeMap<ObjectHandle,\s*AnoncredsObject>>>", obj)) == 1 and obj.count("FFI_OBJECTS") == 1 + obj.count("FFI_OBJECTS\n            .lock()") + obj.count("FFI_OBJECTS\n                    .lock()")
     body = HEADER
+    b = lambda x: "true" if x else "false"
+    body += f"Definition gen_store_counter_fetch_add_seqcst : bool := {b(counter_ok)}.\n"
+    body += f"Definition gen_store_create_next_then_locked_insert : bool := {b(create_ok)}.\n"
+    body += f"Definition gen_store_load_locked_get_cloned : bool := {b(load_ok)}.\n"
+    body += f"Definition gen_store_remove_locked_remove : bool := {b(remove_ok)}.\n"
+    body += f"Definition gen_store_single_lock : bool := {b(single_lock)}.\n"
     body += f"Definition gen_tails_blob_tag_sz : Z := {tag_sz}%Z.\n"
     body += "Definition gen_tails_version : list Z := [" + "; ".join(v + "%Z" for v in ver) + "].\n"
     body += f"Definition gen_tails_disarm_before_rename : bool := {'true' if disarm_before else 'false'}.\n"
